@@ -9,6 +9,7 @@ simulated observations (pure data).
 from __future__ import annotations
 
 import calendar
+import datetime as _dt
 import gc
 import hashlib
 import itertools
@@ -46,8 +47,8 @@ class Run:
 
 def _mock_token():
     """token (world.ZONE_HISTORY) of the zone object currently set as mock local zone, if a named one"""
-    m = _ltz._mock_local_timezone
-    return None if m is None else ZONE_HISTORY["tokens"].get(id(m))
+    m = getattr(_ltz, "_mock_local_timezone", None)
+    return None if not isinstance(m, _dt.tzinfo) else ZONE_HISTORY["tokens"].get(id(m))
 
 
 def mock_tokens(run, rec):
